@@ -11,6 +11,12 @@
 (*             complete, markAge in seconds or -1) as observed after the   *)
 (*             REAL store-gateway fetcher ran; got: ids it selected;       *)
 (*             ignoreSec: the delay it was given (the default)             *)
+(*   "wiring"  the compactor's filter and BlocksCleaner, built with the     *)
+(*             delays runCompact passes them (read from its source:        *)
+(*             filterSec, cleanerSec; storeSec from runStore), ran on      *)
+(*             `blocks`; deleted: ids the cleaner deleted; after: ids      *)
+(*             still intact; views[k] = [lagSec, loaded]: what the real    *)
+(*             gateway fetcher had selected lagSec ago                     *)
 (*   "probe"   the built binary compacted a bucket whose block was marked  *)
 (*             ageH hours ago; included: the block was planned             *)
 (* Judged with the property-level operators of DelayProtocol / Compaction. *)
@@ -38,12 +44,28 @@ Judge(e) ==
             (* made of a superset of its sources is (any choice among duplicates is accepted)                       *)
             \cup (IF \A c \in C : \E k \in K : k.grp = c.grp /\ c.src \subseteq k.src THEN {}
                     ELSE {"gateway-keeps-every-unhidden-block-or-a-block-covering-it"})
+    ELSE IF e.kind = "wiring" THEN
+        LET B == BlocksOf(e)
+            ageOf(i) == LET b == CHOOSE x \in B : x.id = i IN b.markAge
+        IN  (* "the compactor ... deletes sources after a delete delay": whatever the cleaner, composed as runCompact composes *)
+            (* it, deleted had been marked longer ago than --delete-delay                                                  *)
+            (IF \A i \in Range(e.deleted) : ageOf(i) # NoMark /\ ageOf(i) > e.deleteSec THEN {}
+               ELSE {"block-deleted-only-after-the-delete-delay"})
+            (* "every source sample remains served ... with sync lag bounded below the difference of the delays": what a *)
+            (* gateway that synced within that bound has loaded is still intact in the bucket after the cleaner ran       *)
+            \cup (IF \A k \in DOMAIN e.views :
+                       LagWithinBound(e.views[k].lagSec, e.ignoreSec, e.deleteSec) => Queryable(Range(e.views[k].loaded), Range(e.after))
+                    THEN {} ELSE {"blocks-loaded-by-a-gateway-within-the-lag-bound-still-in-the-bucket"})
     ELSE {}
 
 (* model conformance: exact selection of the model's filters; delays in the model's ratio; the deleteDelay/2 planning rule *)
 Drift(e) ==
     IF e.kind = "filter" THEN Range(e.got) # { b.id : b \in SGServes(BlocksOf(e), e.ignoreSec) }
     ELSE IF e.kind = "flags" THEN e.deleteSec * e.modelIgnore # e.ignoreSec * e.modelDelete
+    (* the model's cleaner deletes exactly the visible blocks marked longer than DeleteDelay; its sync filter uses DeleteDelay/2 *)
+    ELSE IF e.kind = "wiring" THEN
+        \/ Range(e.deleted) # { b.id : b \in { x \in BlocksOf(e) : x.meta /\ x.markAge # NoMark /\ x.markAge > e.cleanerSec } }
+        \/ e.cleanerSec # e.deleteSec \/ e.filterSec * 2 # e.deleteSec \/ e.storeSec # e.ignoreSec \/ e.err # ""
     ELSE e.included # (e.ageH * 3600 * 2 <= e.deleteSec)
 
 VARIABLE l
